@@ -11,6 +11,10 @@ const (
 	SpOnly           // X-only   (synthesised; X is an active id without suffix, X-only unlisted)
 	SpLater          // X-or-later (synthesised; X as above, X-or-later unlisted)
 	numSpell
+	// SpLaterPlus is X-or-later+ : valid by the C05 grammar (a suffixed id may carry '+'); it is not
+	// drawn by RandomTerm (the semantic monitors stay with the spellings C08 documents) and is used
+	// where only validity / scanning matters (C05 sequences, C15 prefixes).
+	SpLaterPlus = numSpell
 )
 
 // Case mutation applied to listed ids (license and exception). Suffixes added by the harness
@@ -92,6 +96,8 @@ func (t Term) Text() string {
 		s += "-only"
 	case SpLater:
 		s += "-or-later"
+	case SpLaterPlus:
+		s += "-or-later+"
 	}
 	if t.Exc != "" {
 		s += " WITH " + mutateCase(t.Exc, t.Case, t.CaseKey+1)
@@ -113,7 +119,7 @@ func (t Term) Denote(u *Universe) Den {
 		d.Plus = true
 	}
 	switch t.Spell {
-	case SpPlus, SpLater:
+	case SpPlus, SpLater, SpLaterPlus:
 		d.Plus = true
 	}
 	if strings.HasSuffix(d.ID, "-or-later") {
@@ -133,7 +139,7 @@ func (u *Universe) SpellOK(id string, sp int) bool {
 		return true
 	case SpPlus:
 		return !hasPlusChar
-	case SpOnly, SpLater:
+	case SpOnly, SpLater, SpLaterPlus:
 		if !u.ActiveSet[id] || strings.HasSuffix(id, "-only") || strings.HasSuffix(id, "-or-later") {
 			return false
 		}
